@@ -24,6 +24,7 @@ namespace vf
 {
 std::atomic<int64_t>  g_now_ns{BASE_NS};
 int                   g_hash_mode = 0;
+int                   g_val_eq_mode = 0;
 thread_local ValStats g_vs;
 } // namespace vf
 namespace std
@@ -41,6 +42,28 @@ steady_clock::time_point steady_clock::now() noexcept
 } // namespace std
 
 using namespace vf;
+
+// Replacement allocation functions: give the scheduler its allocation points (see vsched.c).
+void* operator new(size_t n)
+{
+    sch_alloc_point();
+    void* p = malloc(n ? n : 1);
+    if (!p)
+        throw std::bad_alloc();
+    return p;
+}
+void* operator new[](size_t n)
+{
+    sch_alloc_point();
+    void* p = malloc(n ? n : 1);
+    if (!p)
+        throw std::bad_alloc();
+    return p;
+}
+void operator delete(void* p) noexcept { free(p); }
+void operator delete[](void* p) noexcept { free(p); }
+void operator delete(void* p, size_t) noexcept { free(p); }
+void operator delete[](void* p, size_t) noexcept { free(p); }
 
 static double wall()
 {
@@ -164,6 +187,7 @@ struct Args
     long        max_exec{50000000};
     int         part{0}, parts{1}; // program partition for parallel processes
     int         verbose{0};
+    int         alloc_points{0};
     int         clocked{0}; // programs with a clock-tick thread; oracle on deadlines (C04, C05, C17)
 };
 static const char* g_ckname = "";
@@ -367,6 +391,7 @@ struct E2
             A ad(cfg);
             setup(ad, p);
             sch_reset(p.nt, prefix.data(), (int)prefix.size());
+            sch_alloc_points(a.alloc_points);
             pthread_t th[SCH_MAXT];
             WArg      wa[SCH_MAXT];
             for (int t = 0; t < p.nt; t++)
@@ -674,6 +699,8 @@ struct E2
                 body += "t" + std::to_string(t) + " " + op_ser(o) + " # " + op_str(o) + "\n";
         if (a.clocked)
             body += "clocked 1\n";
+        if (a.alloc_points)
+            body += "allocpoints 1\n";
         body += "schedule";
         for (int c : choices)
             body += " " + std::to_string(c);
@@ -1213,6 +1240,8 @@ struct E2
             }
             else if (!strncmp(line, "clocked 1", 9))
                 a.clocked = 1;
+            else if (!strncmp(line, "allocpoints 1", 13))
+                a.alloc_points = 1;
             else if (!strncmp(line, "props C", 7))
                 a.prop = atoi(line + 7);
             else if (!strncmp(line, "clause ", 7))
@@ -1276,7 +1305,7 @@ struct E2
         printf("RESULT {\"container\":\"%s\",\"prop\":\"C%02d\",\"mode\":\"schedmc\",", g_ckname, a.prop);
         printf(
             "\"cfg\":{\"cap\":%d,\"nkeys\":%d,\"ts\":1,\"hash\":%d,\"ttl_ms\":%d,\"tick_ms\":%d,\"ratio\":%g,\"threads\":%d,"
-            "\"ops_per_thread\":%d,\"reduced_alphabet\":%d,\"bound\":%d,\"part\":%d,\"parts\":%d},",
+            "\"ops_per_thread\":%d,\"reduced_alphabet\":%d,\"bound\":%d,\"alloc_points\":%d,\"part\":%d,\"parts\":%d},",
             cfg.cap,
             cfg.nkeys,
             cfg.hash,
@@ -1287,6 +1316,7 @@ struct E2
             a.shape % 10,
             a.reduced,
             a.bound,
+            a.alloc_points,
             a.part,
             a.parts);
         printf(
@@ -1370,6 +1400,8 @@ int main(int argc, char** argv)
             a.verbose = 1;
         else if (s == "--clocked")
             a.clocked = atoi(nx());
+        else if (s == "--alloc-points")
+            a.alloc_points = atoi(nx());
         else
         {
             fprintf(stderr, "unknown argument %s\n", s.c_str());
@@ -1385,6 +1417,7 @@ int main(int argc, char** argv)
     else
         signal(SIGSEGV, on_signal);
     using AD = Ad<ck, cappuccino::thread_safe::yes>;
+    warm_up_other_instance<AD>();
     E2<AD> e(a);
     if (!a.replay_file.empty())
         return e.run_replay();
